@@ -281,11 +281,55 @@ fn m_fbarrays(rng: &mut Rng, p: &mut Prog) {
     }
 }
 
+fn m_inherit(rng: &mut Rng, p: &mut Prog) {
+    p.mods.push("inherit");
+    p.pous += "FUNCTION_BLOCK Base\nVAR PUBLIC\n  cnt : DINT;\nEND_VAR\nMETHOD PUBLIC Advance : DINT\nVAR_INPUT\n  d : DINT;\nEND_VAR\ncnt := cnt + d;\nAdvance := cnt;\nEND_METHOD\nMETHOD PUBLIC Fetch : DINT\nFetch := cnt;\nEND_METHOD\nEND_FUNCTION_BLOCK\n";
+    p.pous += "FUNCTION_BLOCK Derived EXTENDS Base\nVAR PUBLIC\n  extra : DINT;\nEND_VAR\nMETHOD PUBLIC OVERRIDE Advance : DINT\nVAR_INPUT\n  d : DINT;\nEND_VAR\nextra := extra + DINT#1;\nAdvance := SUPER.Advance(d := d * DINT#2);\nEND_METHOD\nMETHOD PUBLIC Both : DINT\nBoth := THIS.Fetch() + extra;\nEND_METHOD\nEND_FUNCTION_BLOCK\n";
+    p.pous += "FUNCTION_BLOCK Third EXTENDS Derived\nMETHOD PUBLIC OVERRIDE Fetch : DINT\nFetch := SUPER.Fetch() - extra;\nEND_METHOD\nEND_FUNCTION_BLOCK\n";
+    p.vars += "  bs : Base;\n  dv : Derived;\n  th : Third;\n";
+    for _ in 0..rng.range(2, 6) {
+        let s = match rng.below(10) {
+            0 => format!("i := bs.Advance(d := {});\n", dexpr(rng)),
+            1 => format!("i := dv.Advance(d := {});\n", dexpr(rng)),
+            2 => "i := dv.Both();\n".to_string(),
+            3 => "i := dv.Fetch() + bs.Fetch();\n".to_string(),
+            4 => format!("i := th.Advance({});\n", dlit(rng.range(0, 4))),
+            5 => "i2 := th.Fetch() + th.Both();\n".to_string(),
+            6 => "i2 := dv.cnt + dv.extra + th.cnt;\n".to_string(),
+            7 => format!("dv.extra := {};\n", dexpr(rng)),
+            8 => "bs(); dv(); th();\n".to_string(),
+            _ => format!("IF th.Advance(d := {}) > dv.Both() THEN\n  i := bs.Fetch();\nEND_IF;\n", dexpr(rng)),
+        };
+        p.body += &s;
+    }
+}
+fn m_convert(rng: &mut Rng, p: &mut Prog) {
+    p.mods.push("convert");
+    p.vars += "  wd : WORD;\n  bt : BYTE;\n  ud : UDINT;\n  li : LINT;\n  si : SINT;\n  rr : REAL;\n";
+    for _ in 0..rng.range(2, 7) {
+        let s = match rng.below(12) {
+            0 => "wd := INT_TO_WORD(j);\n".to_string(),
+            1 => "j := WORD_TO_INT(wd);\n".to_string(),
+            2 => format!("bt := DINT_TO_BYTE({});\n", dexpr(rng)),
+            3 => format!("ud := DINT_TO_UDINT({});\n", dexpr(rng)),
+            4 => "li := DINT_TO_LINT(i) * LINT#4294967296;\n".to_string(),
+            5 => "i := LINT_TO_DINT(li);\n".to_string(),
+            6 => format!("si := DINT_TO_SINT({});\n", dexpr(rng)),
+            7 => "rr := LINT_TO_REAL(li) + DINT_TO_REAL(i);\n".to_string(),
+            8 => "i := REAL_TO_DINT(rr);\n".to_string(),
+            9 => "j := SINT_TO_INT(si) + BYTE_TO_INT(bt);\n".to_string(),
+            10 => "li := UDINT_TO_LINT(ud) - DINT_TO_LINT(i2);\n".to_string(),
+            _ => "ud := LINT_TO_UDINT(li);\n".to_string(),
+        };
+        p.body += &s;
+    }
+}
+
 fn gen(rng: &mut Rng) -> Prog {
     let mut p = Prog { types: String::new(), pous: String::new(), vars: String::new(), body: String::new(), mods: vec![] };
     p.vars += "  cyc : DINT;\n  i : DINT;\n  i2 : DINT;\n  j : INT;\n  b : BOOL;\n  b2 : BOOL;\n";
     p.body += "cyc := cyc + DINT#1;\nb := NOT b;\n";
-    let mods: [fn(&mut Rng, &mut Prog); 12] = [m_arrays, m_structs, m_functions, m_fbs, m_stdfbs, m_stdfuns, m_refs, m_strings, m_enums, m_time, m_classes, m_fbarrays];
+    let mods: [fn(&mut Rng, &mut Prog); 14] = [m_arrays, m_structs, m_functions, m_fbs, m_stdfbs, m_stdfuns, m_refs, m_strings, m_enums, m_time, m_classes, m_fbarrays, m_inherit, m_convert];
     let k = rng.range(1, 3);
     let mut chosen: Vec<usize> = vec![];
     while chosen.len() < k as usize { let m = rng.below(mods.len() as u64) as usize; if !chosen.contains(&m) { chosen.push(m); } }
@@ -297,7 +341,7 @@ fn source(p: &Prog) -> String { format!("{}{}PROGRAM Main\nVAR\n{}END_VAR\n{}END
 /// declared tag of the scalar variables the modules declare in Main (name, Debug prefix of the stored value)
 const TAGS: &[(&str, &str)] = &[("cyc", "DInt("), ("i", "DInt("), ("i2", "DInt("), ("j", "Int("), ("b", "Bool("), ("b2", "Bool("), ("w", "DWord("), ("r", "Real("), ("lr", "LReal("),
     ("u", "UInt("), ("s", "String("), ("t", "String("), ("ws", "WString("), ("n", "Int("), ("c", "Enum("), ("sm", "Int("), ("tm", "Time("), ("tm2", "Time("), ("dd", "Date("),
-    ("td", "Tod("), ("dt1", "Dt("), ("lt", "LTime("), ("tot", "DInt("), ("et", "Time(")];
+    ("td", "Tod("), ("dt1", "Dt("), ("lt", "LTime("), ("tot", "DInt("), ("et", "Time("), ("wd", "Word("), ("bt", "Byte("), ("ud", "UDInt("), ("li", "LInt("), ("si", "SInt("), ("rr", "Real(")];
 fn run_src(src: &str, cycles: usize) -> String {
     let mut h = match TestHarness::from_source(src) {
         Ok(h) => h,
